@@ -864,11 +864,17 @@ class FileSet:
         gc.collect()
 
         # We do not want to have any None as data
-        files, data = zip(*[
+        results = [
             [info, content]
             for info, content in results
             if content is not None
-        ])
+        ]
+        if not results:
+            # No file had any content (e.g. all of them could not be read
+            # and error_to_warning is set)
+            return ([], []) if return_info else []
+
+        files, data = zip(*results)
 
         if return_info:
             return list(files), list(data)
